@@ -19,7 +19,7 @@ from sfc_models.equation_solver import EquationSolver, NoEquilibriumError  # noq
 
 ID = 'C15'
 LEVEL = 'exploration'
-RULE = ('systems x = a*LAG_x + c*LAG_y + b (+ 0.1*t), y = a2*LAG_y + b2 with (a,c) in {0,.5,.9,1,-.5,-1,1.05}^2, b in '
+RULE = ('systems x = a*LAG_x + c*LAG_y + b (+ 0.1*t), y = a2*LAG_y + b2 with (a,c) in {0,.5,.9,1,-.5,-1,1.05}^2 (thorough: 12 values each), b in '
         '{0,1,-1,10,-10}, initial values in {0,5,-5}, read-outs z=-x (decorative) and al=x (alias), exogenous shift g; x search horizon '
         '{1,2,3,20,200} x tolerance {1e-4,1e-3} x excluded list {default, +z (a read-out nothing depends on)}; oracle: after acceptance one more SolveStep with exogenous '
         'frozen at k=0 moves every non-excluded variable by <= 2 tol (absolute or relative; violated only if both >= 20 tol), rejection is '
@@ -33,6 +33,7 @@ BOUNDS = {'quick': {'two_state_horizons': [1, 2, 3, 20], 'one_state_horizons': [
           'thorough': {'two_state_horizons': [1, 2, 3, 20, 200], 'one_state_horizons': [1, 2, 3, 5, 20, 200]}}
 
 AC = [0., .5, .9, 1., -.5, -1., 1.05]
+AC_THOROUGH = AC + [.25, .75, -.9, 1.01, -1.05]
 BS = [0., 1., -1., 10., -10.]
 INITS = [0., 5., -5.]
 TOLS = [1e-4, 1e-3]
@@ -116,9 +117,10 @@ def check(block, T, tol, excl_x, case):
 
 def units(tier):
     out = []
-    for a in AC:
+    grid = AC if tier == 'quick' else AC_THOROUGH
+    for a in grid:
         out.append({'part': 'one', 'a': a})
-        for c in AC:
+        for c in grid:
             out.append({'part': 'two', 'a': a, 'c': c})
     return out
 
